@@ -201,6 +201,16 @@ fn explore(ctx: &mut Ctx) {
         }
     }
     ctx.exhaustive_part("lead-byte sweep: first / last scalar of each of the 51 UTF-8 lead bytes (+ U+0000, U+007F) x 8 short contexts x every index 0..=len+1, usize::MAX x all pairs");
+    for s in gen::special_char_strings() {
+        let idx: Vec<usize> = (0..=s.len() + 1).chain([usize::MAX]).collect();
+        for &a in &idx {
+            eval(ctx, Case { s: s.clone(), a, b: None });
+            for &b in &idx {
+                eval(ctx, Case { s: s.clone(), a, b: Some(b) });
+            }
+        }
+    }
+    ctx.exhaustive_part("16 special chars (BOM, U+FFFD, Unicode white space / separators, zero-width, fullwidth digit, DEL, ESC) in 6 contexts x every index x all pairs");
     // long strings (beyond the exhaustive bound): 17..=70 bytes, every index and every pair
     for (k, n) in [(1usize, 9usize), (2, 14), (3, 23), (5, 31)] {
         let pool = ['a', 'é', '漢', '😀', '\u{7ff}', '\u{800}', '\u{ffff}', 'z'];
